@@ -55,6 +55,7 @@ type JobResult struct {
 	Queries    int
 	FeasQ      int
 	SolverTime time.Duration
+	Fallbacks  map[string]int // queries of this job decided by a fallback solver
 	Instrs     int
 	Funcs      map[string]bool
 	Witness    int
@@ -197,6 +198,10 @@ func (r *Runner) runJob(job Job, st *Store, sol *Solver) (jr JobResult) {
 		maxPaths = job.MaxPaths
 	}
 	q0, t0 := sol.Queries, sol.Time
+	fb0 := map[string]int{}
+	for k, v := range sol.Fallbacks {
+		fb0[k] = v
+	}
 	work := [][]decision{nil}
 	for len(work) > 0 {
 		// shortest prefix first: when a budget cuts the exploration short, the
@@ -257,6 +262,14 @@ func (r *Runner) runJob(job Job, st *Store, sol *Solver) (jr JobResult) {
 	jr.FeasQ = e.feasQ
 	jr.Queries = sol.Queries - q0
 	jr.SolverTime = sol.Time - t0
+	for k, v := range sol.Fallbacks {
+		if v > fb0[k] {
+			if jr.Fallbacks == nil {
+				jr.Fallbacks = map[string]int{}
+			}
+			jr.Fallbacks[k] = v - fb0[k]
+		}
+	}
 	jr.GlobalW = e.globalW
 	jr.GlobalR = e.globalR
 	jr.LoopFuncs = e.loopFuncs
